@@ -190,9 +190,11 @@ static void gen_simplex(Draw &d, Case &c) {
   for (int i = 0; i < dim; i++) c.v.push_back(d.real(-50, 50));            // minimiser
   c.v.push_back(d.real(-100, 100));                                          // minimum value
   for (int i = 0; i < dim; i++) c.v.push_back(d.real(-10, 10));            // start offset from the minimiser
-  for (int i = 0; i < dim; i++) c.v.push_back((d.coin(50) ? 1 : -1) * d.real(0.05, 5));   // steps
+  // steps: "arbitrary" includes steps that are tiny against the distance to travel (a tenth of the cases: 1e-6..1e-3)
+  bool tiny = d.coin(10); double tsc = tiny ? std::pow(10.0, d.real(-6, -3)) : 1.0;
+  for (int i = 0; i < dim; i++) c.v.push_back((d.coin(50) ? 1 : -1) * d.real(0.05, 5) * (tiny ? tsc / 5 : 1.0));   // steps
   c.nontrivial = dim >= 3;
-  c.tags.push_back(fmt("dim=%d", dim));
+  c.tags.push_back(fmt("dim=%d", dim)); if (tiny) c.tags.push_back("tiny-initial-steps");
 }
 static void pred_simplex(const Case &c) {
   Reader rd(c);
@@ -213,6 +215,15 @@ static void pred_simplex(const Case &c) {
   VF_CHECK(fb == res, "reported value %.17g is not the objective at the returned point (%.17g)", res, fb);
   VF_CHECK(res <= fbest0, "returned value %.17g is worse than the best vertex of the initial simplex %.17g", res, fbest0);
   ld gap0 = (ld)f0 - g_c;
+  {
+    // KNOWN FINDING (known_findings.txt): started from a simplex that is tiny against the distance to the minimiser, in 3 or more
+    // dimensions, the method can stretch the simplex into a degenerate one that collapses onto a level set and meets the stop test at
+    // a non-stationary point.  Such failures are attributed to that finding; every other failure is reported.
+    ld dist0 = 0, smax = 0; for (int i = 0; i < dim; i++) { dist0 += off[i] * off[i]; smax = std::max(smax, fabsl(st[i])); } dist0 = sqrtl(dist0);
+    bool tinystart = dim >= 3 && smax <= 2e-3L * dist0;
+    if (tinystart && !((ld)res - g_c <= std::max<ld>(1e-6L * gap0 + 1e-9L, 1000 * (ld)xtol)))
+      fail_known("simplex-tiny-initial-steps-collapse", fmt("simplex started with steps <= 2e-3 of the distance to the minimiser stopped at f - f* = %.3Lg (f(x0) - f* = %.3Lg, %d dimensions, %ld evaluations)", (ld)res - g_c, gap0, dim, g_calls));
+  }
   VF_CHECK((ld)res - g_c <= std::max<ld>(1e-6L * gap0 + 1e-9L, 1000 * (ld)xtol), "simplex stopped at f - f* = %.3Lg (f(x0) - f* = %.3Lg, %d dimensions, xtol %g, %ld evaluations)", (ld)res - g_c, gap0, dim, xtol, g_calls);
   tag(g_calls < 1000 ? "evals<1e3" : g_calls < 10000 ? "evals<1e4" : "evals>=1e4");
   DelDVector(&x0); DelDVector(&step); DelDVector(&best);
